@@ -118,9 +118,27 @@ func oneC05obs(t *testing.T, x Exp, pid string, order string, out *c05obs) (msg 
 			}
 		}
 		switch order {
-		case "receiver-first":
+		case "receiver-first", "receiver-first-after-other-lines":
 			startReceiver()
 			synctest.Wait()
+			if order == "receiver-first-after-other-lines" {
+				// the same sshd process has logged other things before (multi-step authentication, bookkeeping):
+				// they write nothing, forward nothing and leave nothing behind
+				for _, l := range otherSshdLines {
+					if err := proc.ProcessSshdLogEntry(ctx, sshd.SshdLogEntry{PID: pid, Message: l}); err != nil {
+						fail("line %q returned %v", l, err)
+					}
+				}
+				synctest.Wait()
+				select {
+				case <-got:
+					fail("a login was forwarded for a line that reports no accepted authentication")
+				default:
+				}
+				if len(rec.ptrs) != 0 {
+					fail("%d events written for lines that report nothing the daemon records", len(rec.ptrs))
+				}
+			}
 			process()
 			synctest.Wait()
 			if !returned || ret != nil {
@@ -290,7 +308,7 @@ func runC05(t *testing.T, run *mc.Run) int {
 	if !run.Thorough() {
 		s.users, s.addrs, s.keytypes = s.users[:2], s.addrs[:2], s.keytypes[:2]
 	}
-	orders := []string{"receiver-first", "receiver-late", "never-cancel", "cancelled-before", "encoder-fails", "cancelled-before+encoder-fails"}
+	orders := []string{"receiver-first", "receiver-first-after-other-lines", "receiver-late", "never-cancel", "cancelled-before", "encoder-fails", "cancelled-before+encoder-fails"}
 	var sm sampler
 	n, withLogin := 0, 0
 	complete := true
@@ -360,7 +378,7 @@ func runC05(t *testing.T, run *mc.Run) int {
 		}
 	})
 	cov := mc.Coverage{Level: "model_checking", States: len(sm.forms), Transitions: n, Traces: n, Evaluations: n, Distinct: withLogin, Exhaustive: complete, Samples: sm.samples,
-		Rule:  "for every line of the (reduced) C06 product x pid tokens {1,25007,4194304,007}: every environment order {receiver ready before the line; receiver appears after the call blocked; no receiver, context cancelled while blocked; context cancelled before the line; encoder fails; encoder fails under an already cancelled context} delivered to the real ProcessSshdLogEntry in a synctest bubble (quiescence = every goroutine durably blocked), unbuffered logins channel as in cmd/namedpipe.go. states = distinct (form, order) cells; distinct_nontrivial = executions of accepted-authentication lines",
+		Rule:  "for every line of the (reduced) C06 product x pid tokens {1,25007,4194304,007}: every environment order {receiver ready before the line; the same after 7 other real sshd lines of that process (Partial publickey ..., Postponed ..., Connection ...); receiver appears after the call blocked; no receiver, context cancelled while blocked; context cancelled before the line; encoder fails; encoder fails under an already cancelled context} delivered to the real ProcessSshdLogEntry in a synctest bubble (quiescence = every goroutine durably blocked), unbuffered logins channel as in cmd/namedpipe.go. states = distinct (form, order) cells; distinct_nontrivial = executions of accepted-authentication lines",
 		Extra: map[string]any{"cells": sm.forms, "orders": orders}}
 	cov.Assumptions = []string{"testing/synctest durable-blocking semantics", "select with both cancellation and a ready receiver is left unjudged (the statement says 'unless its context is cancelled')"}
 	return run.Finish(cov)
